@@ -3,6 +3,17 @@ import difflib
 import libcst as cst
 
 
+def split_lines(text: str) -> list[str]:
+    """
+    Split text into lines, keeping the line endings, at line feeds only.
+
+    `str.splitlines` also breaks at form feeds, NEL, U+2028, ... which are not line
+    boundaries for diff/patch tools or for the line numbers of a file.
+    """
+    lines = text.split("\n")
+    return [line + "\n" for line in lines[:-1]] + ([lines[-1]] if lines[-1] else [])
+
+
 def create_diff(original_lines: list[str], new_lines: list[str]) -> str:
     diff_lines = list(difflib.unified_diff(original_lines, new_lines))
     return difflines_to_str(diff_lines)
@@ -13,8 +24,8 @@ def create_diff_from_tree(original_tree: cst.Module, new_tree: cst.Module) -> st
     Create a diff between the original and output trees.
     """
     return create_diff(
-        original_tree.code.splitlines(keepends=True),
-        new_tree.code.splitlines(keepends=True),
+        split_lines(original_tree.code),
+        split_lines(new_tree.code),
     )
 
 
